@@ -104,6 +104,8 @@ C = [
   [("pkg/core/storage/memcached_store.go", " || strings.HasPrefix(key[lPrefix:], sStart))", ")")]),
  ("C06-duplicate-transactions-unchecked", "C06", "accept-dominators", "AddBlock no longer rejects a repeated transaction (the repaired defect)",
   [("pkg/core/blockchain.go", "\t\t\tif _, ok := seen[tx.Hash()]; ok {\n\t\t\t\treturn fmt.Errorf(\"invalid block: duplicate transaction %s\", tx.Hash().StringLE())\n\t\t\t}\n", "")]),
+ ("C02-inactive-without-jump", "C20", "inactive-after-jump", "a restart that finds everything fetched marks the module inactive without jumping (the repaired defect)",
+  [("pkg/core/statesync/module.go", "\ts.checkSyncIsCompleted()\n\treturn nil\n}", "\tif s.syncStage == headersSynced|blocksSynced|mptSynced {\n\t\ts.syncStage = inactive\n\t}\n\treturn nil\n}")]),
 ]
 
 root = "/verif/controls"
